@@ -52,3 +52,98 @@ def p1_resolve_entity(chk):
 
 def run(chk):
     p1_resolve_entity(chk)
+
+
+# ---------------------------------------------------------------------------- P2 bold/italic path search
+STYLE = "mwlib/parser/styleanalyzer.py"
+
+
+def p2_get_next(chk):
+    """State.get_next(count): for every count >= 2 it adds at most B(count) successor states
+    (B = 1, 2, 2, 6, 6 for count = 2, 3, 4, 5, > 5), each linked to the given predecessor, and
+    never raises - the per-step fan-out bound behind 'pruned to 32 states => no blow-up'"""
+    import z3
+    from pyvc.values import PObj, SInt, SBool, ClassRef
+    from pyvc import source
+    ex = Explorer()
+    fn = ex.function(STYLE, "State.get_next")
+    ex.inline |= {STYLE + ":State.__init__", STYLE + ":State.clone", STYLE + ":State.get_next"}
+    ex.inline_all = False
+    mod = source.module(STYLE)
+    cls = ClassRef(mod.defs["State"], mod)
+
+    def harness(I):
+        k = I.choose(5, "count_case")
+        if k < 4:
+            count = k + 2
+        else:
+            count = I.sym_int("count")
+            I.assume(count.z > 5)
+        prev0 = PObj(cls, {"apocount": 0, "is_bold": False, "is_italic": False, "previous": None}, name="root")
+        st = PObj(cls, {"apocount": I.sym_int("apocount"), "is_bold": I.decide(I.sym_bool("bold").z),
+                        "is_italic": I.decide(I.sym_bool("italic").z), "previous": prev0}, name="self")
+        I.assume(st.fields["apocount"].z >= 0)
+        res = []
+        out = ex.run_function(I, fn, [st, count, res])
+        I.oblige("no_raise", out.returned, meta={"exc": out.exc.cls.name if out.exc else None})
+        bound = {2: 1, 3: 2, 4: 2, 5: 6}.get(count if isinstance(count, int) else 5, 6)
+        I.oblige("fan_out_bounded", len(res) <= bound, meta={"count": str(count), "produced": len(res)})
+        I.oblige("at_least_one_successor", len(res) >= 1)
+        for s in res:
+            I.oblige("successors_link_to_the_predecessor", s.fields.get("previous") is st)
+            I.oblige("apostrophe_surplus_non_negative", z3.BoolVal(True) if isinstance(s.fields["apocount"], int) and s.fields["apocount"] >= 0
+                     else (s.fields["apocount"].z >= 0 if hasattr(s.fields["apocount"], "z") else False))
+
+    chk.prove("styleanalyzer.State.get_next", harness, ex, targets=[fn], replay=None)
+    import ast
+    src = ast.unparse(source.module(STYLE).find("compute_path"))
+    chk.static("styleanalyzer.compute_path.pruned_to_32_states", "states = states[:32]" in src and "states = [best]" in src, "states[:32] after sorting")
+
+
+def bounded_compute_path(chk):
+    import itertools, time
+    from mwlib.parser import styleanalyzer
+    n = 0
+    fail = None
+    t0 = time.process_time()
+    for ln in range(0, 6):
+        for counts in itertools.product([2, 3, 4, 5, 6, 9], repeat=ln):
+            n += 1
+            try:
+                r = styleanalyzer.compute_path(list(counts))
+                if len(r) != len(counts):
+                    fail = {"detail": f"compute_path({counts}) has length {len(r)}", "witness": {"counts": counts}, "class": "length"}
+            except Exception as e:  # noqa: BLE001
+                fail = {"detail": f"compute_path({counts}) raised {type(e).__name__}", "witness": {"counts": counts}, "class": "raise"}
+            if fail:
+                break
+        if fail:
+            break
+    # growth: work per apostrophe run stays bounded (32 states x fan-out 6)
+    for size in (200, 400, 800):
+        t = time.process_time()
+        styleanalyzer.compute_path([3, 2, 5, 4, 7] * (size // 5))
+        dt = time.process_time() - t
+        if dt > 5.0 and not fail:
+            fail = {"detail": f"compute_path on {size} runs took {dt:.1f}s", "witness": {"runs": size}, "class": "slow"}
+    chk.bounded_result("compute_path_all_short_count_sequences", n, n, True,
+                       "all sequences of <= 5 apostrophe-run lengths over {2,3,4,5,6,9}: result length == number of runs, no exception; plus 200/400/800-run inputs under 5 s cpu",
+                       [fail] if fail else [])
+
+
+def bounded_parse(chk):
+    from contracts import docs
+    res = docs.run_passes(chk.tier, chk.seed, want=("c01",))
+    chk.bounded_result("parse_string_total", res["evaluations"], res["distinct"], False, res["bound"],
+                       res["failures"].get("c01", []), res["samples"])
+
+
+def run(chk):  # noqa: F811
+    p1_resolve_entity(chk)
+    p2_get_next(chk)
+    bounded_compute_path(chk)
+    bounded_parse(chk)
+    chk.assumptions += [
+        "whole-pipeline totality (20 refinement passes, tagext/imgmap handlers, the C++ scanner) is NOT a discharged contract: only the leaf mechanisms above are proved; the rest is observed by the bounded stand-in",
+        "library contracts of int()/chr()/str slicing; html.entities.name2codepoint values lie in range(0x110000) (data lemma, checked concretely)",
+    ]
